@@ -24,6 +24,8 @@ FLAVORS = {
                  ldflags=['-fsanitize=address']),
 }
 COMMON_CFLAGS = ['-DMTBL_VERIF', '-D_GNU_SOURCE', '-w']
+# library translation units only: abort()/exit() are routed to the harness, which treats them like a failed assertion
+LIB_STOP_FLAGS = ['-Dabort=vh_lib_abort', '-Dexit=vh_lib_exit']
 
 
 def sha(*parts):
@@ -119,7 +121,7 @@ def build(spec):
         for s in LIB_SRCS:
             if s in spec.get('exclude', []):
                 continue
-            f = base + spec.get('lib_flags', []) + spec.get('tu_flags', {}).get(s, [])
+            f = base + LIB_STOP_FLAGS + spec.get('lib_flags', []) + spec.get('tu_flags', {}).get(s, [])
             jobs.append((fl['cc'], f, os.path.join(REPO, s)))
     for (s, flv) in spec.get('extra', []):
         if flv == 'nosan':
